@@ -12,7 +12,18 @@ type Lexer struct {
 	line    int
 	column  int
 	atStart bool
+	header  int // stage of a transaction header line, hdrNone on every other line
 }
+
+// Stages of a transaction header line: DATE [=DATE2] [*|!] [(code)] free text.
+const (
+	hdrNone = iota
+	hdrDate
+	hdrEquals
+	hdrDate2
+	hdrStatus
+	hdrText
+)
 
 func NewLexer(input string) *Lexer {
 	return &Lexer{
@@ -48,6 +59,7 @@ func (l *Lexer) scanLineStart() Token {
 	}
 
 	if l.isDigit(l.peek()) {
+		l.header = hdrDate
 		return l.scanDate()
 	}
 
@@ -59,6 +71,9 @@ func (l *Lexer) scanLineStart() Token {
 }
 
 func (l *Lexer) scanInLine() Token {
+	if l.header != hdrNone {
+		return l.scanHeader()
+	}
 	l.skipSpaces()
 
 	if l.pos >= len(l.input) {
@@ -114,6 +129,51 @@ func (l *Lexer) scanInLine() Token {
 	default:
 		return l.scanText()
 	}
+}
+
+// scanHeader scans the next token of a transaction header line after its date: "=" and a
+// secondary date directly behind the date, then a status mark, then a code, and from there on
+// free text up to ";" or the line end, split at "|" only.
+func (l *Lexer) scanHeader() Token {
+	stage, from := l.header, l.pos
+	for l.pos < len(l.input) && !l.atLineEnd() && unicode.IsSpace(l.peekRune()) {
+		l.advance()
+	}
+	adjacent, ch := l.pos == from, l.peek()
+	l.header = hdrText
+	switch {
+	case l.pos >= len(l.input):
+		return l.makeToken(TokenEOF, "")
+	case l.atLineEnd():
+		return l.scanNewline()
+	case ch == ';':
+		return l.scanComment()
+	case ch == '|':
+		return l.scanSingleChar(TokenPipe)
+	case ch == '=' && stage == hdrDate && adjacent:
+		l.header = hdrEquals
+		return l.scanSingleChar(TokenEquals)
+	case l.isDigit(ch) && stage == hdrEquals && adjacent:
+		l.header = hdrDate2
+		return l.scanDate()
+	case (ch == '*' || ch == '!') && stage < hdrStatus:
+		l.header = hdrStatus
+		return l.scanStatus()
+	case ch == '(' && stage < hdrText:
+		return l.scanCode()
+	}
+	// free text: it starts at a non-blank character and ends after its last non-blank one
+	start, startPos := l.pos, l.position()
+	end, endPos := start, startPos
+	for l.pos < len(l.input) && !l.atLineEnd() && l.peek() != ';' && l.peek() != '|' {
+		blank := unicode.IsSpace(l.peekRune())
+		l.advance()
+		if !blank {
+			end, endPos = l.pos, l.position()
+		}
+	}
+	l.pos, l.column = end, endPos.Column
+	return Token{Type: TokenText, Value: l.input[start:end], Pos: startPos, End: endPos}
 }
 
 func (l *Lexer) scanDate() Token {
@@ -200,6 +260,7 @@ func (l *Lexer) scanNewline() Token {
 	l.line++
 	l.column = 1
 	l.atStart = true
+	l.header = hdrNone
 	return Token{Type: TokenNewline, Value: "\n", Pos: startPos, End: l.position()}
 }
 
